@@ -194,6 +194,7 @@ def run_C15(ctx, R):
     _scoped(ctx, R, utilsx.tab18, C15_ENTRIES, 1)
     _scoped(ctx, R, bnd3.bnd3_pointer, C15_ENTRIES, 30)
     _scoped(ctx, R, utilsx.esc1, C15_ENTRIES, 1)
+    _per_config(ctx, R, utilsx.esc3)
 
 
 def run_C16(ctx, R):
@@ -236,6 +237,7 @@ def run_C17(ctx, R):
     _scoped(ctx, R, _inl(out.out7), C17_ENTRIES, 3)
     _per_config(ctx, R, _inl(utilsx.gen1))
     _per_config(ctx, R, _inl(utilsx.gen2))
+    _per_config(ctx, R, utilsx.esc2)
     _per_config(ctx, R, utilsx.dig1)
     from .rules import tree
     _scoped(ctx, R, tree.tab3, C17_ENTRIES, 4)
